@@ -912,6 +912,22 @@ class C10(L1Prop):
                         ops += [f"av 1 latest:1 b:{n1 + i}" for i in range(kk)]
                         ops += ["dump 1", f"as 1 ver:1:{t} b:200,{t}", "dump 1", "gs 1"]
                         out.append(Case(f"c10-late-{k}", ops)); k += 1
+        # a version row that cannot be read while the server walks back from the latest version: the
+        # upload may be answered with an error, it must never be ACCEPTED without having been validated
+        for n in range(3, sizes(tier, 7, 9)):
+            for spos in range(0, n - 1):
+                for dmg in range(0, min(3, n - 1 - spos)):            # damaged row: dmg versions behind the latest
+                    for t in range(0, n):
+                        # the damaged row is read only if the walk gets that far: it stops at the requested
+                        # version, at the existing snapshot and after four steps
+                        dt, ds = n - 1 - t, n - 1 - spos
+                        if not (dmg < dt and dmg < ds and dmg < 4 and t != spos):
+                            continue
+                        ops = ["ensure 1"] + [f"av 1 {'nil' if i == 0 else 'latest:1'} b:{i}" for i in range(spos + 1)]
+                        ops.append("as 1 latest:1 b:100")
+                        ops += [f"av 1 latest:1 b:{i}" for i in range(spos + 1, n)]
+                        ops += ["dump 1", f"rowfault anc:1:{dmg} {2 + dmg}", f"as 1 ver:1:{t} b:200,{t}", "dump 1", "gs 1"]
+                        out.append(Case(f"c10-rowfault-{k}", ops, {"only": "sqlite", "faults": True})); k += 1
         nh, length = sizes(tier, (120, 60), (800, 300))
         for j in range(nh):
             g = HistGen(rng, 2, False, True, False)
@@ -938,6 +954,8 @@ class C10(L1Prop):
         return False
     def oracle(self, case, trace, backend):
         fails = []
+        # the lines that announce / report an injected fault are not observations of the server
+        trace = [t for t in trace if not t[0].startswith(("fault ", "mark fired"))]
         for i, (o, ri, rm) in enumerate(trace):
             op = Op(o)
             if op.kind != "as" or i == 0 or i + 1 >= len(trace):
@@ -951,7 +969,7 @@ class C10(L1Prop):
                 if resp_kind(ri) != "noclient":
                     fails.append(f"op {i}: add_snapshot for an unknown client answered {ri}")
                 continue
-            if resp_kind(ri) != "snapack":
+            if resp_kind(ri) != "snapack" and not (case.meta.get("faults") and resp_kind(ri) == "error"):
                 fails.append(f"op {i}: add_snapshot answered {ri} (the client is told success either way)")
             ids, stop = b.chain_back()
             window, base = ids[:5], stop
